@@ -1031,12 +1031,24 @@ nofold:
 		if r := foldPositional(b, a); r != nil {
 			return r
 		}
+		if r := addIntoZeroLowBits(a, b); r != nil {
+			return r
+		}
+		if r := addIntoZeroLowBits(b, a); r != nil {
+			return r
+		}
+		if r := bvBackedArith(op, a, b); r != nil {
+			return r
+		}
 	case OISub:
 		if isZero(b) {
 			return a
 		}
 		if a == b {
 			return IntI(0)
+		}
+		if r := bvBackedArith(op, a, b); r != nil {
+			return r
 		}
 	case OIMul:
 		if isZero(a) || isZero(b) {
@@ -1047,6 +1059,21 @@ nofold:
 		}
 		if isOne(b) {
 			return a
+		}
+		// a bit-vector's value times 2^k is the value of the bit-vector with k zero bits appended
+		for _, pr := range [][2]*Term{{a, b}, {b, a}} {
+			if k, ok := log2Const(pr[1]); ok {
+				if x, signed, okx := bvBacked(pr[0]); okx && x.S.W+k <= bvArithMaxWidth {
+					sh := Concat(x, BVi(0, k))
+					if signed {
+						return BV2IntSigned(sh)
+					}
+					return BV2Nat(sh)
+				}
+			}
+		}
+		if r := bvBackedArith(op, a, b); r != nil {
+			return r
 		}
 	case OIDiv:
 		if isOne(b) {
@@ -1142,6 +1169,23 @@ func mkBits(n *Term, lo, width int) *Term {
 	return IntBin(OIMod, x, IntConst(pow2(width)))
 }
 
+// addIntoZeroLowBits: value(hi ++ 0_k) + unsigned value(B) with |B| <= k is value(hi ++ zext(B)).
+func addIntoZeroLowBits(a, b *Term) *Term {
+	xa, sa, oka := bvBacked(a)
+	xb, sb, okb := bvBacked(b)
+	if !oka || !okb || sb {
+		return nil
+	}
+	if xa.Op != OConcat || !xa.Args[1].IsConst() || xa.Args[1].C.Sign() != 0 || xa.Args[1].S.W < xb.S.W {
+		return nil
+	}
+	r := Concat(xa.Args[0], ZExt(xb, xa.Args[1].S.W))
+	if sa {
+		return BV2IntSigned(r)
+	}
+	return BV2Nat(r)
+}
+
 // log2Const: b is the constant 2^k.
 func log2Const(b *Term) (int, bool) {
 	if !b.IsConst() || b.C.Sign() <= 0 {
@@ -1185,6 +1229,95 @@ func foldPositional(hi, lo *Term) *Term {
 	return BV2Nat(Concat(xb, lb))
 }
 
+
+// bvArithMaxWidth bounds the widths produced by bit-vector-backed integer arithmetic.
+const bvArithMaxWidth = 320
+
+// asSignedBV returns a bit-vector whose signed value is the integer term: the bit-vector behind
+// a signed-backed term, the zero-extension of an unsigned-backed one, or a constant.
+func asSignedBV(t *Term) (*Term, bool) {
+	if t.IsConst() {
+		w := t.C.BitLen() + 1
+		if w > bvArithMaxWidth {
+			return nil, false
+		}
+		return BVConst(t.C, w), true
+	}
+	x, signed, ok := bvBacked(t)
+	if !ok {
+		return nil, false
+	}
+	if signed {
+		return x, true
+	}
+	return ZExt(x, x.S.W+1), true
+}
+
+// bvBackedArith computes a + b, a - b or a * b exactly on widened bit-vectors when both
+// operands are values of bit-vectors (at least one of them non-constant).
+func bvBackedArith(op Op, a, b *Term) *Term {
+	if a.IsConst() && b.IsConst() {
+		return nil
+	}
+	xa, oka := asSignedBV(a)
+	if !oka {
+		return nil
+	}
+	xb, okb := asSignedBV(b)
+	if !okb {
+		return nil
+	}
+	switch op {
+	case OIAdd, OISub:
+		w := xa.S.W
+		if xb.S.W > w {
+			w = xb.S.W
+		}
+		w++
+		if w > bvArithMaxWidth {
+			return nil
+		}
+		bop := OBvAdd
+		if op == OISub {
+			bop = OBvSub
+		}
+		return BV2IntSigned(BvBin(bop, SExt(xa, w), SExt(xb, w)))
+	case OIMul:
+		w := xa.S.W + xb.S.W
+		if w > bvArithMaxWidth {
+			return nil
+		}
+		return BV2IntSigned(BvBin(OBvMul, SExt(xa, w), SExt(xb, w)))
+	}
+	return nil
+}
+
+// bvBackedQuoRem: truncated quotient/remainder (Go's Quo/Rem) of bit-vector-backed integers;
+// the caller guarantees a non-zero divisor.
+func bvBackedQuoRem(rem bool, a, b *Term) *Term {
+	if a.IsConst() && b.IsConst() {
+		return nil
+	}
+	xa, oka := asSignedBV(a)
+	xb, okb := asSignedBV(b)
+	if !oka || !okb {
+		return nil
+	}
+	w := xa.S.W
+	if xb.S.W > w {
+		w = xb.S.W
+	}
+	w++ // -2^(w-1) / -1 does not overflow in w+1 bits
+	if w > bvArithMaxWidth {
+		return nil
+	}
+	op := OBvSDiv
+	if rem {
+		op = OBvSRem
+	}
+	return BV2IntSigned(BvBin(op, SExt(xa, w), SExt(xb, w)))
+}
+
 func INeg(a *Term) *Term {
 	if a.IsConst() {
 		return IntConst(new(big.Int).Neg(a.C))
@@ -1192,12 +1325,19 @@ func INeg(a *Term) *Term {
 	if a.Op == OINeg {
 		return a.Args[0]
 	}
+	if x, ok := asSignedBV(a); ok && x.S.W < bvArithMaxWidth {
+		return BV2IntSigned(BvNeg(SExt(x, x.S.W+1)))
+	}
 	return intern(&Term{Op: OINeg, S: SInt, Args: []*Term{a}})
 }
 
 func IAbs(a *Term) *Term {
 	if a.IsConst() {
 		return IntConst(new(big.Int).Abs(a.C))
+	}
+	if x, ok := asSignedBV(a); ok {
+		// |x| <= 2^(w-1) fits w bits unsigned
+		return BV2Nat(Ite(BvCmp(OBvSLt, x, BVi(0, x.S.W)), BvNeg(x), x))
 	}
 	return Ite(ILt(a, IntI(0)), INeg(a), a)
 }
@@ -1270,6 +1410,14 @@ func intCmpAsBV(op Op, a, b *Term) (*Term, bool) {
 	switch {
 	case oka && okb && sa == sb && xa.S.W == xb.S.W:
 		return cmp(xa, xb, sa), true
+	case oka && okb:
+		ya, _ := asSignedBV(a)
+		yb, _ := asSignedBV(b)
+		w := ya.S.W
+		if yb.S.W > w {
+			w = yb.S.W
+		}
+		return cmp(SExt(ya, w), SExt(yb, w), true), true
 	case oka && b.IsConst():
 		lo, hi := rng(xa.S.W, sa)
 		if b.C.Cmp(lo) < 0 { // value >= lo > c
@@ -1684,9 +1832,13 @@ func lenCmp(op Op, a, b *Term) (*Term, bool) {
 	}
 	n := int(k.Int64())
 	ax := IAbs(x)
+	xs, xsOK := asSignedBV(x)
 	lt := func(p int) *Term { // |x| < 2^p
 		if p < 0 {
 			return TFalse
+		}
+		if xsOK && p >= xs.S.W {
+			return TTrue // the signed value of a w-bit vector has |x| <= 2^(w-1)
 		}
 		return ILt(ax, IntConst(pow2(p)))
 	}
